@@ -76,6 +76,11 @@ def norm_zero(p):
     if isinstance(p, tuple):
         if len(p) == 3 and p[0] == 'dimension' and p[1] == 0 and p[2] in _LENGTH_UNITS:
             return ('number', 0.0)
+        # a media list emptied by an edit is the same as the list 'all' ("an empty list is the same as a list that contains the medium all")
+        if len(p) == 3 and p[0] == 'media' and p[1] == ():
+            p = ('media', ((None, 'all', ()),), p[2])
+        elif len(p) == 4 and p[0] == 'import' and p[2] == ():
+            p = ('import', p[1], ((None, 'all', ()),), p[3])
         return tuple(norm_zero(x) for x in p)
     return p
 
@@ -203,7 +208,20 @@ def _k_calc_comment(info, fails):
     return sp.comments != 'none' and 'calc' in sp.comment_parts and _tree_has(info['sheet'], _is_calc)
 
 
+def _unencodable(text, enc):
+    try:
+        text.encode(enc)
+        return False
+    except (UnicodeError, LookupError):
+        return True
+
+
 def _k_atkeyword_crlf(info, fails):
+    if info['domain'] == 'content':
+        # the serializer writes a character the sheet encoding cannot represent as a hex escape - which the tokenizer does not decode in an at-keyword
+        return info['context'] == 'unknown at-keyword' and bool(info.get('encoding')) and _unencodable(info['content'], info['encoding'])
+    if info['domain'] == 'edits':
+        return info['base'] == 'non-ascii' and any(o.startswith('encoding=') for o in info['ops']) and all('unknown' in d or '@f' in d for _, d in fails)
     if info['domain'] not in ('generator', 'nodes'):
         return False
     sp = _sp(info)
@@ -238,7 +256,8 @@ def _k_media_ns(info, fails):
 KNOWN = [
     ('C03-ident-not-reescaped', _k_ident),
     ('C03-url-control-char-unquoted', lambda info, fails: info['domain'] == 'content' and info['context'] in URL_CONTEXTS and bool(_URL_CONTROL.search(info['content']))),
-    ('C03-comment-linebreak-reindented', lambda info, fails: info['domain'] == 'content' and info['context'] in COMMENT_CONTEXTS
+    ('C03-comment-linebreak-reindented', lambda info, fails: info['domain'] == 'content' and info['context'] in ('comment declaration level', 'comment in value')
+     and all('*/' in d for _, d in fails)
      and (any(c in info['content'] for c in '\n\r\f') or bool(re.search(r'\\[aAcCdD](?![0-9a-fA-F])', info['content'])))),
     ('C03-selector-nbsp-stripped', lambda info, fails: info['domain'] == 'content' and info['context'] in ('attribute name', 'attribute value ident', 'type name')
      and info['content'] != info['content'].strip() and info['content'].strip(' \t\r\n\f') == info['content']),
@@ -257,14 +276,27 @@ KNOWN = [
 
 
 def classify(info, fails):
-    """-> id of the recorded finding whose class contains this input (and whose symptom matches), or None"""
-    for fid, pred in KNOWN:
-        try:
-            if pred(info, fails):
-                return fid
-        except Exception:
-            continue
-    return None
+    """-> ids of the recorded findings that explain the failures of this input, or None.  First one class for all failures; if none does, every
+    single failure must be explained by a class of its own (an input can sit in two classes, e.g. two edits that each hit a finding)"""
+    def one(fs):
+        for fid, pred in KNOWN:
+            try:
+                if pred(info, fs):
+                    return fid
+            except Exception:
+                continue
+        return None
+    fid = one(fails)
+    if fid:
+        return [fid]
+    ids = []
+    for f in fails:
+        fid = one([f])
+        if not fid:
+            return None
+        if fid not in ids:
+            ids.append(fid)
+    return ids
 
 
 # ------------------------------------------------------------------------------------------------------- domain 1: generator DOMs
@@ -374,12 +406,13 @@ def _report(ctx, results, name, rule, bound, samples, t0, exhaustive=False):
         for f in r['fails']:
             byinput.setdefault(json.dumps(f['info'], sort_keys=True, default=str), []).append(f)
         for fs in byinput.values():
-            fid = classify(fs[0]['info'], [(f['clause'], f['detail']) for f in fs])
-            if fid:
-                h = hits.setdefault(fid, {'count': 0, 'witness': fs[0]})
-                h['count'] += 1
-                if len(_info_text(fs[0]['info'])) < len(_info_text(h['witness']['info'])):
-                    h['witness'] = fs[0]
+            fids = classify(fs[0]['info'], [(f['clause'], f['detail']) for f in fs])
+            if fids:
+                for fid in fids:
+                    h = hits.setdefault(fid, {'count': 0, 'witness': fs[0]})
+                    h['count'] += 1
+                    if len(fids) == 1 and len(_info_text(fs[0]['info'])) < len(_info_text(h['witness']['info'])):
+                        h['witness'] = fs[0]
                 continue
             for f in fs:
                 ctx.violation(f['clause'], '%s | %s' % (_info_text(f['info']), f['detail']), True, f['info'])
@@ -473,6 +506,11 @@ BASES = {
                 '@font-face { font-family: x; src: url(y) }',
     'charset-comments': '@charset "utf-8"; /*1*/ a { /*2*/ color: red; /*3*/ } /*4*/ @foo bar { baz }',
     'empty': '',
+    # non-ASCII text in every place that holds text: after sheet.encoding = <an encoding that cannot represent it> the serializer writes hex escapes, and the
+    # reparsed DOM must hold the same comment text, strings, URLs, identifiers and selectors again (projection, not only bytes)
+    'non-ascii': '/* Gr\xfc\xdfe \u2013 caf\xe9 \u20ac */ @import "\xfc.css" screen; @namespace p\xfc "http://\xe4"; .Gr\xfc\xdfe, #caf\xe9[data-\xfc="\xf6\u20ac"] > p\xfc|\xe9l\xe9ment '
+                 '{ /* d\xe9cl \xfc \u20ac */ content: "Gr\xfc\xdfe \u20ac" "\xe9\\a x"; background: url(\xfc.png) url("a \xf6.png"); font-family: Gr\xfc\xdfe, \xe9a; } '
+                 '/*\xe9*/ @media screen { /* \xfc in media */ .\xe9 { left: 0 } } @f\xf6\xf6 b\xe4r "\xe4";',
 }
 
 
@@ -505,7 +543,8 @@ def _ops():
     ops.append(('add(CSSComment)', lambda s: s.add(cssutils.css.CSSComment('/*added*/'))))
     ops.append(('add(CSSImportRule)', lambda s: s.add(cssutils.css.CSSImportRule(href='n.css', mediaText='print'))))
     ops.append(('add(CSSNamespaceRule)', lambda s: s.add(cssutils.css.CSSNamespaceRule(namespaceURI='http://n', prefix='n'))))
-    ops.append(('encoding=ascii', lambda s: setattr(s, 'encoding', 'ascii')))
+    for enc in ('ascii', 'iso-8859-1', 'utf-8', 'koi8-r'):
+        ops.append(('encoding=%s' % enc, lambda s, enc=enc: setattr(s, 'encoding', enc)))
     ops.append(('namespaces[q]', lambda s: s.namespaces.__setitem__('q', 'http://q2')))
     ops.append(('del namespaces[p]', lambda s: s.namespaces.__delitem__('p')))
     S = R.STYLE_RULE
@@ -551,7 +590,7 @@ def _pair_pool(ops, tier):
     """indexes of the operations used in sequences of two (quick: without the insert-at-0 twins and the second spelling of similar edits)"""
     if tier == 'thorough':
         return list(range(len(ops)))
-    skip = ("insertRule(", "style.setProperty('COLOR'", "style.setProperty('top'", "style.setProperty('font-family'", "style.selectorText='*'", "style.selectorText='a /*c*/ b'")
+    skip = ("insertRule(", "encoding=utf-8", "encoding=koi8-r", "style.setProperty('COLOR'", "style.setProperty('top'", "style.setProperty('font-family'", "style.selectorText='*'", "style.selectorText='a /*c*/ b'")
     keep_insert = ("insertRule('x { left: 0 }', 0)", "insertRule('@import \"i.css\" tv;', 0)", "insertRule('@media tv { y { top: 0 } }', end)", "insertRule('/*ins*/', end)",
                    "insertRule('@namespace q \"http://q\";', 0)", "insertRule('q|z { color: blue }', end)", "insertRule('@page :left { margin: 0 }', end)")
     return [i for i, (n, _) in enumerate(ops) if n in keep_insert or not n.startswith(skip)]
@@ -775,56 +814,64 @@ def css_ident(name):
     return ''.join(out)
 
 
-def _content_cases(content):
-    """(context, source text, getter(dom) -> held content or None) for one content string"""
+def _R(d):
+    """the rules of the sheet without a leading @charset"""
+    return [r for r in d.cssRules if r.type != r.CHARSET_RULE]
+
+
+def _content_cases(content, enc=None):
+    """(context, source text, getter(dom) -> held content or None) for one content string; enc: the sheet declares @charset enc, so that
+    the serializer has to write every character the encoding cannot represent as a hex escape"""
     S = gen.css_string(content)
     S1 = gen.css_string(content, "'")
     cases = []
-    first_decl = lambda d: d.cssRules[0].style.getProperties(all=True)[0].propertyValue[0]  # noqa: E731
+    first_decl = lambda d: _R(d)[0].style.getProperties(all=True)[0].propertyValue[0]  # noqa: E731
     cases.append(('string value "', 'a { x: %s }' % S, lambda d: first_decl(d).value))
     cases.append(("string value '", 'a { x: %s }' % S1, lambda d: first_decl(d).value))
     cases.append(('string in function', 'a { x: f(%s) }' % S, lambda d: [i.value for i in first_decl(d).seq if hasattr(i.value, 'type')][0].value))
     cases.append(('url value quoted', 'a { x: url(%s) }' % S, lambda d: first_decl(d).uri))
-    cases.append(('import href string', '@import %s;' % S, lambda d: d.cssRules[0].href))
-    cases.append(('import href url', '@import url(%s);' % S, lambda d: d.cssRules[0].href))
-    cases.append(('import name', '@import "x" %s;' % S, lambda d: d.cssRules[0].name))
-    cases.append(('namespace uri', '@namespace p %s;' % S, lambda d: d.cssRules[0].namespaceURI))
-    cases.append(('attribute value string', '[x=%s] { y: z }' % S, lambda d: [i.value for i in d.cssRules[0].selectorList[0].seq if i.type == 'STRING'][0]))
-    cases.append(('unknown rule string', '@foo %s;' % S, lambda d: [i.value for i in d.cssRules[0].seq if i.type == 'STRING'][0]))
+    cases.append(('import href string', '@import %s;' % S, lambda d: _R(d)[0].href))
+    cases.append(('import href url', '@import url(%s);' % S, lambda d: _R(d)[0].href))
+    cases.append(('import name', '@import "x" %s;' % S, lambda d: _R(d)[0].name))
+    cases.append(('namespace uri', '@namespace p %s;' % S, lambda d: _R(d)[0].namespaceURI))
+    cases.append(('attribute value string', '[x=%s] { y: z }' % S, lambda d: [i.value for i in _R(d)[0].selectorList[0].seq if i.type == 'STRING'][0]))
+    cases.append(('unknown rule string', '@foo %s;' % S, lambda d: [i.value for i in _R(d)[0].seq if i.type == 'STRING'][0]))
     if content and not any(c in content for c in '\n\r\f') and content.strip(' \t') == content and not any(c in content for c in '\'"()\\ \t') and all(ord(c) >= 0x20 and ord(c) != 0x7f for c in content):
         cases.append(('url value bare', 'a { x: url(%s) }' % content, lambda d: first_decl(d).uri))
     if content:
         I = css_ident(content)
         if True:
             cases.append(('ident value', 'a { x: %s }' % I, lambda d: first_decl(d).value))
-            cases.append(('class name', '.%s { y: z }' % I, lambda d: d.cssRules[0].selectorList[0].seq[0].value[1:]))
-            cases.append(('id name', '#%s { y: z }' % I, lambda d: d.cssRules[0].selectorList[0].seq[0].value[1:]))
-            cases.append(('type name', '%s { y: z }' % I, lambda d: d.cssRules[0].selectorList[0].seq[0].value[1]))
-            cases.append(('attribute name', '[%s] { y: z }' % I, lambda d: d.cssRules[0].selectorList[0].seq[1].value))
-            cases.append(('attribute value ident', '[x=%s] { y: z }' % I, lambda d: d.cssRules[0].selectorList[0].seq[3].value))
-            cases.append(('property name', 'a { %s: z }' % I, lambda d: d.cssRules[0].style.getProperties(all=True)[0].literalname))
-            cases.append(('namespace prefix', '@namespace %s "u"; %s|a { y: z }' % (I, I), lambda d: d.cssRules[0].prefix))
-            cases.append(('page name', '@page %s { margin: 0 }' % I, lambda d: d.cssRules[0].selectorText))
-            cases.append(('unknown at-keyword', '@%s x;' % I, lambda d: d.cssRules[0].atkeyword[1:]))
+            cases.append(('class name', '.%s { y: z }' % I, lambda d: _R(d)[0].selectorList[0].seq[0].value[1:]))
+            cases.append(('id name', '#%s { y: z }' % I, lambda d: _R(d)[0].selectorList[0].seq[0].value[1:]))
+            cases.append(('type name', '%s { y: z }' % I, lambda d: _R(d)[0].selectorList[0].seq[0].value[1]))
+            cases.append(('attribute name', '[%s] { y: z }' % I, lambda d: _R(d)[0].selectorList[0].seq[1].value))
+            cases.append(('attribute value ident', '[x=%s] { y: z }' % I, lambda d: _R(d)[0].selectorList[0].seq[3].value))
+            cases.append(('property name', 'a { %s: z }' % I, lambda d: _R(d)[0].style.getProperties(all=True)[0].literalname))
+            cases.append(('namespace prefix', '@namespace %s "u"; %s|a { y: z }' % (I, I), lambda d: _R(d)[0].prefix))
+            cases.append(('page name', '@page %s { margin: 0 }' % I, lambda d: _R(d)[0].selectorText))
+            cases.append(('unknown at-keyword', '@%s x;' % I, lambda d: _R(d)[0].atkeyword[1:]))
             cases.append(('function name', 'a { x: %s(1) }' % I, lambda d: first_decl(d).seq[0].value[:-1]))
             cases.append(('dimension unit', 'a { x: 1%s }' % I, lambda d: first_decl(d).dimension))
-            cases.append(('pseudo-class name', 'a:%s { y: z }' % I, lambda d: d.cssRules[0].selectorList[0].seq[1].value[1:]))
+            cases.append(('pseudo-class name', 'a:%s { y: z }' % I, lambda d: _R(d)[0].selectorList[0].seq[1].value[1:]))
     if '*/' not in content and not content.endswith('*') or False:
-        cases.append(('comment rule level', '/*%s*/ a { y: z }' % content, lambda d: d.cssRules[0].cssText[2:-2]))
-        cases.append(('comment declaration level', 'a { /*%s*/ y: z }' % content, lambda d: list(d.cssRules[0].style.children())[0].cssText[2:-2]))
-        cases.append(('comment in value', 'a { y: z /*%s*/ w }' % content, lambda d: [i.value for i in d.cssRules[0].style.getProperties(all=True)[0].propertyValue.seq if i.value.__class__.__name__ == 'CSSComment'][0].cssText[2:-2]))
-        cases.append(('comment in selector', 'a /*%s*/ b { y: z }' % content, lambda d: [i.value for i in d.cssRules[0].selectorList[0].seq if i.type == 'COMMENT'][0].cssText[2:-2]))
-        cases.append(('comment in media', '@media /*%s*/ print { a { y: z } }' % content, lambda d: d.cssRules[0].media.mediaText))
+        cases.append(('comment rule level', '/*%s*/ a { y: z }' % content, lambda d: _R(d)[0].cssText[2:-2]))
+        cases.append(('comment declaration level', 'a { /*%s*/ y: z }' % content, lambda d: list(_R(d)[0].style.children())[0].cssText[2:-2]))
+        cases.append(('comment in value', 'a { y: z /*%s*/ w }' % content, lambda d: [i.value for i in _R(d)[0].style.getProperties(all=True)[0].propertyValue.seq if i.value.__class__.__name__ == 'CSSComment'][0].cssText[2:-2]))
+        cases.append(('comment in selector', 'a /*%s*/ b { y: z }' % content, lambda d: [i.value for i in _R(d)[0].selectorList[0].seq if i.type == 'COMMENT'][0].cssText[2:-2]))
+        cases.append(('comment in media', '@media /*%s*/ print { a { y: z } }' % content, lambda d: _R(d)[0].media.mediaText))
+    if enc:
+        cases = [(c, '@charset "%s";%s' % (enc, src), g) for c, src, g in cases]
     return cases
 
 
 def _content_worker(args):
-    maxlen, lo, hi = args
+    maxlen, lo, hi, enc = args
     cssutils = _quiet()
-    contents = _contents(maxlen)
+    contents = _contents(maxlen) if enc is None else _enc_contents(enc)
     res = {'n': 0, 'fails': [], 'kinds': set()}
     for content in contents[lo:hi]:
-        for ctxname, src, getter in _content_cases(content):
+        for ctxname, src, getter in _content_cases(content, enc):
             try:
                 dom = cssutils.parseString(src)
                 held = getter(dom)
@@ -833,8 +880,8 @@ def _content_worker(args):
             finally:
                 cssutils.log.raiseExceptions = True
             res['n'] += 1
-            res['kinds'].add((ctxname, tuple(sorted(set(content)))))
-            info = {'domain': 'content', 'context': ctxname, 'content': content, 'source': src}
+            res['kinds'].add((ctxname, enc, tuple(sorted(set(content)))))
+            info = {'domain': 'content', 'context': ctxname, 'content': content, 'source': src, 'encoding': enc}
             fails = roundtrip(dom, configs=('lossless',))
             if not fails:
                 try:
@@ -855,6 +902,23 @@ def _content_worker(args):
 
 
 _CONTENTS = {}
+# characters the target encoding cannot represent (written by the serializer as hex escapes) followed by everything that could be taken for part of the
+# escape or for its terminator: line breaks, TAB, space, hex digits, a letter that is no hex digit, another escaped character, the end of the construct
+ENCODINGS = {'ascii': ['\xe9', '\u20ac', '\U0001F600'], 'iso-8859-1': ['\u20ac', '\U0001F600'], 'utf-8': ['\xe9']}
+FOLLOWERS = ['', '\n', '\r', '\f', '\r\n', '\t', ' ', 'a', 'f', 'F', '1', '0', 'g', '-', '\\', '"', '*']
+
+
+def _enc_contents(enc):
+    out = []
+    for ch in ENCODINGS[enc]:
+        for f in FOLLOWERS:
+            out += [ch + f, 'x' + ch + f, ch + f + 'y', ch + ch + f]
+    for ch in ENCODINGS[enc][:1]:
+        for f1, f2 in itertools.product(FOLLOWERS[1:9], repeat=2):
+            out.append(ch + f1 + ch + f2)
+    seen = set()
+    return [c for c in out if not (c in seen or seen.add(c))]
+
 
 
 def _contents(maxlen):
@@ -874,13 +938,20 @@ def content(ctx):
     contents = _contents(maxlen)
     n = len(contents)
     step = 40 if ctx.tier == 'quick' else 200
-    tasks = [(maxlen, lo, min(n, lo + step)) for lo in range(0, n, step)]
+    tasks = [(maxlen, lo, min(n, lo + step), None) for lo in range(0, n, step)]
+    nenc = 0
+    for enc in ENCODINGS:
+        m = len(_enc_contents(enc))
+        nenc += m
+        tasks += [(maxlen, lo, min(m, lo + 40), enc) for lo in range(0, m, 40)]
     results = _pool_run(ctx, _content_worker, tasks)
     _report(ctx, results, 'content', 'all strings of length <= %d over the critical alphabet %r (length 2: its first 24, length 3: its first 16 characters) written by independent CSS string / identifier / comment '
             'writers into every context that holds such content (string and url() values, @import href and name, @namespace URI, attribute values, unknown rules; identifier values, class/id/type/'
             'attribute/property/function/pseudo/at-keyword/page/prefix names, units; comments at rule and declaration level, in values, selectors and media lists); the parsed DOM is '
-            'serialised, reparsed, compared (projection, bytes, and the held content itself); distinct = (context, set of characters)' % (maxlen, ALPHABET),
-            '%d content strings' % n, [{'content': 'a"\'', 'source': 'a { x: %s }' % gen.css_string('a"\'')}], t0)
+            'serialised, reparsed, compared (projection, bytes, and the held content itself); the same under @charset ascii / iso-8859-1 / utf-8 for contents made of a '
+            'character the encoding cannot represent (%r) followed by %r (the serializer must write a hex escape whose terminator survives); '
+            'distinct = (context, encoding, set of characters)' % (maxlen, ALPHABET, ENCODINGS, FOLLOWERS),
+            '%d content strings + %d under a declared @charset' % (n, nenc), [{'content': 'a"\'', 'source': 'a { x: %s }' % gen.css_string('a"\'')}], t0)
 
 
 # ---------------------------------------------------------------------------------------------------- witnesses of the recorded findings
